@@ -286,6 +286,52 @@ def _chunk(args):
     return st, machinery, bad
 
 
+# ------------------------------------------------------------------------------------------ beyond the grammar of Subst.tla
+# (pattern, replacement, source, the source an ideal substitution is tree-equal to).  Shapes the model does not generate:
+# matched generator expressions that share the parentheses of their call (callee names of every ending), bound texts with
+# backslash escapes, replacements that only re-indent the matched lines (statements moved into / out of a block).
+def special_cases() -> List[Tuple[str, str, str, str]]:
+    out = []
+    for callee in ("sum", "sum2", "np.float64", "math.atan2", "total_", "agg[0]", "mk()", "f"):
+        out.append(("({{e}} for {{v}} in {{it}})", "list({{it}})", f"r = {callee}(v * v for v in xs)\nprint(r)\n", f"r = {callee}(list(xs))\nprint(r)\n"))
+        out.append(("({{e}} for {{v}} in {{it}})", "[{{e}} for {{v}} in {{it}}]", f"r = {callee}(v + 1 for v in xs)\n", f"r = {callee}([v + 1 for v in xs])\n"))
+        out.append(("({{e}} for {{v}} in {{it}})", "map(abs, {{it}})", f"if c:\n    r = {callee}(abs(v) for v in xs)\n", f"if c:\n    r = {callee}(map(abs, xs))\n"))
+    for text in ("'C:\\\\temp\\\\new.txt'", "'a\\nb'", "r'\\d+\\s'", "'tab\\there'", "'\\\\1 and \\\\g<0>'", "b'\\x00\\xff'"):
+        out.append(("print({{x}})", "print({{x}})", f"print({text})\n", f"print({text})\n"))
+        out.append(("f({{x}})", "g({{x}}, {{x}})", f"y = f({text})\n", f"y = g({text}, {text})\n"))
+    moves = [
+        ("for {{i}} in {{r}}:\n    {{body}}\n{{after}}", "for {{i}} in {{r}}:\n    {{body}}\n    {{after}}",
+         "for i in r:\n    f(i)\ng(i)\n", "for i in r:\n    f(i)\n    g(i)\n"),
+        ("if {{c}}:\n    {{body}}\n{{after}}", "if {{c}}:\n    {{body}}\n    {{after}}", "if c:\n    f(1)\ng(2)\nh(3)\n", "if c:\n    f(1)\n    g(2)\nh(3)\n"),
+        ("while {{c}}:\n    {{body}}\n{{after}}", "while {{c}}:\n    {{body}}\n    {{after}}", "def k():\n    while c:\n        f(1)\n    g(2)\n",
+         "def k():\n    while c:\n        f(1)\n        g(2)\n"),
+        ("if {{c}}:\n    {{first}}\n    {{second}}", "if {{c}}:\n    {{first}}\n{{second}}", "if c:\n    f(1)\n    g(2)\n", "if c:\n    f(1)\ng(2)\n"),
+        ("with {{a}}:\n    {{first}}\n    {{second}}", "with {{a}}:\n    {{first}}\n{{second}}", "def k():\n    with a:\n        f(1)\n        g(2)\n",
+         "def k():\n    with a:\n        f(1)\n    g(2)\n"),
+    ]
+    out += moves
+    return out
+
+
+def special_part(rep: Report, mods, known) -> int:
+    pm = mods["pattern_matching"]
+    n = 0
+    for pattern, repl, source, ideal in special_cases():
+        n += 1
+        try:
+            got = pm.sub(pattern, repl, source)
+        except Exception as exc:  # noqa: BLE001
+            rep.violation(f"sub({pattern!r}, {repl!r}, {source!r}) raised {type(exc).__name__}: {exc}", {"pattern": pattern, "replacement": repl, "source": source})
+            continue
+        if dump_or_none(got) == dump_or_none(ideal) and dump_or_none(got) is not None:
+            continue
+        case = {"pattern": pattern, "replacement": repl, "source": source, "result": got, "ideal_is_tree_equal_to": ideal}
+        what = ("the pattern occurs but nothing was replaced" if got == source and dump_or_none(source) != dump_or_none(ideal) else
+                "the result is not the source with the match replaced by the instantiated template")
+        rep.violation(f"sub({pattern!r}, {repl!r}, {source!r}): {what}: {got!r}", case)
+    return n
+
+
 def main(argv=None) -> int:
     rep = Report(PROP, "model_checking")
     import_pyrefact()
@@ -326,8 +372,9 @@ def main(argv=None) -> int:
                 rep.known("KF-C14-1", {"source": case["source"], "pattern": case["pattern"], "replacement": case["replacement"], "result": case["result"]})
             else:
                 rep.violation(f"sub({case.get('pattern')!r}, {case.get('replacement')!r}, {case['source']!r}, count={case.get('count')}): {case['what']}", case)
+    stats["special_cases"] = special_part(rep, import_pyrefact(), known)
     rep.sample({"case": all_recs[0]["case"], "source": render(all_recs[0]["case"])[0], "admissible": all_recs[0]["admissible"]})
-    rep.coverage["evaluations"] = stats.get("cases", 0)
+    rep.coverage["evaluations"] = stats.get("cases", 0) + stats.get("special_cases", 0)
     rep.coverage["distinct_nontrivial"] = stats.get("with_matches", 0)
     rep.coverage["traces_validated_against_impl"] = stats.get("cases", 0)
     rep.coverage["detail"] = stats
